@@ -13,10 +13,15 @@
 #define FAIL(site, kind, shape, ...) mc_fail(site, kind, shape, __VA_ARGS__)
 
 /* ---- controlled environment */
-static int g_env_on; static const char *g_home = "/h";
+static int g_env_on; static const char *g_home = "/h"; static int g_tmp_mode;     /* g_env_on == 2: only TMPDIR/TMP are controlled (bit0 TMPDIR set, bit1 TMP set) */
 char *__real_getenv(const char *);
 char *__wrap_getenv(const char *name)
 {
+    if (g_env_on == 2) {
+        if (!strcmp(name, "TMPDIR")) return (g_tmp_mode & 1) ? __real_getenv("VERIF_SCRATCH") : NULL;
+        if (!strcmp(name, "TMP")) return (g_tmp_mode & 2) ? __real_getenv("VERIF_SCRATCH") : NULL;
+        return __real_getenv(name);
+    }
     if (g_env_on) {
         if (!strcmp(name, "HOME")) return (char *) g_home;
         if (!strcmp(name, "V")) return (char *) "val";
